@@ -280,8 +280,20 @@ def _deliver(rec):
     os._exit(0)
 
 
-def run_forked(plan, real_timeout=60.0):
-    """Fork, run one invocation in the child, return its record (or a harness-error record)."""
+def _child_cpu_s(pid):
+    """Processor time (user + system, all threads) the child has used so far, in seconds; None if it cannot be read."""
+    try:
+        with open('/proc/%d/stat' % pid) as f:
+            rest = f.read().rsplit(')', 1)[1].split()
+        return (int(rest[11]) + int(rest[12])) / float(os.sysconf('SC_CLK_TCK'))
+    except (OSError, IndexError, ValueError):
+        return None
+
+
+def run_forked(plan, real_timeout=60.0, cpu_timeout=None):
+    """Fork, run one invocation in the child, return its record (or a harness-error record).
+    cpu_timeout: the child is also stopped once it has *used* that much processor time (record field cpu_exceeded) - a verdict
+    that does not depend on how loaded the machine is, unlike the wall-clock allowance."""
     global _deliver_fd
     prepare()
     r, w = os.pipe()
@@ -311,8 +323,13 @@ def run_forked(plan, real_timeout=60.0):
                 os.waitpid(pid, 0)
                 return {'harness_error': 'HARNESS-TIMEOUT after %.0fs real time' % real_timeout, 'status': None, 'outcome': 'HARNESS-TIMEOUT',
                         'stdout': '', 'stderr': ''}
-            rl, _, _ = _real_select([r], [], [], min(left, 5.0))
+            rl, _, _ = _real_select([r], [], [], min(left, 1.0 if cpu_timeout else 5.0))
             if not rl:
+                if cpu_timeout and (_child_cpu_s(pid) or 0) >= cpu_timeout:
+                    os.kill(pid, signal.SIGKILL)
+                    os.waitpid(pid, 0)
+                    return {'harness_error': 'HARNESS-TIMEOUT after %.0fs of processor time' % cpu_timeout, 'status': None, 'outcome': 'HARNESS-TIMEOUT',
+                            'cpu_exceeded': True, 'stdout': '', 'stderr': ''}
                 continue
             chunk = os.read(r, 1 << 20)
             if not chunk:
